@@ -167,8 +167,15 @@ class ExcelCompiler:
             if self.cycles:
                 def _eval(cell, cse_array_address=None):
                     cell.start_calcs()
-                    return eval_ctx(
-                        cell.formula, cse_array_address=cse_array_address)
+                    try:
+                        return eval_ctx(
+                            cell.formula, cse_array_address=cse_array_address)
+                    except BaseException:
+                        # the evaluation is abandoned: the cell is no longer
+                        # a work in progress (only the value setter cleared
+                        # the flag, a failed cell returned None ever after)
+                        cell.wip = False
+                        raise
 
             else:
                 def _eval(cell, cse_array_address=None):
